@@ -1,6 +1,7 @@
 (** Proofs about the NodeHost agent model (C18). *)
 From Drummer.Model Require Import Base Agent.
 From Coq Require Import Permutation.
+From Coq Require Import Arith PeanoNat List Lia.
 From Coq Require Import ZifyN ZifyNat ZifyBool.
 
 (** * 1. Reporting *)
@@ -575,3 +576,156 @@ Lemma perform_nothing : forall st,
 Proof. intros st. split; reflexivity. Qed.
 
 End Exec.
+
+(** * 7. join / restore do not read the member lists of the request *)
+
+Lemma create_lists_irrelevant : forall hi s m c i j r app ids addrs cfg m' ids' addrs',
+  j = true \/ r = true ->
+  decide hi (mkReq TCreate s m c i j r app ids addrs cfg) = decide hi (mkReq TCreate s m' c i j r app ids' addrs' cfg).
+Proof.
+  intros hi s m c i j r app ids addrs cfg m' ids' addrs' H.
+  unfold decide, decide_create, start_decision. cbn [q_type q_join q_restore q_app q_shard q_inst q_cfg q_ids q_addrs].
+  destruct j, r; try reflexivity. destruct H; discriminate.
+Qed.
+
+(** * 8. the queue at the level of Go slices *)
+
+Lemma set_arr_length : forall h i c, length (set_arr h i c) = length h.
+Proof.
+  induction h as [|x h IH]; intros i c; [reflexivity|].
+  destruct i as [|i]; cbn [set_arr length]; [reflexivity|]. now rewrite IH.
+Qed.
+
+Lemma set_arr_same : forall h i c, (i < length h)%nat -> arr_of (set_arr h i c) i = c.
+Proof.
+  unfold arr_of. induction h as [|x h IH]; intros i c Hi; cbn [length] in Hi; [lia|].
+  destruct i as [|i]; cbn [set_arr nth]; [reflexivity|]. apply IH. lia.
+Qed.
+
+Lemma set_arr_other : forall h i j c, i <> j -> arr_of (set_arr h i c) j = arr_of h j.
+Proof.
+  unfold arr_of. induction h as [|x h IH]; intros i j c Hij; [reflexivity|].
+  destruct i as [|i]; destruct j as [|j]; cbn [set_arr nth]; try reflexivity; [congruence|].
+  apply IH. congruence.
+Qed.
+
+Lemma arr_of_app_old : forall h x j, (j < length h)%nat -> arr_of (h ++ x) j = arr_of h j.
+Proof. intros h x j Hj. unfold arr_of. now apply app_nth1. Qed.
+
+Lemma arr_of_app_new : forall h c, arr_of (h ++ [c]) (length h) = c.
+Proof. intros h c. unfold arr_of. rewrite app_nth2 by lia. now rewrite Nat.sub_diag. Qed.
+
+Lemma firstn_app_exact : forall A (l r : list A) n, length l = n -> firstn n (l ++ r) = l.
+Proof.
+  intros A l r n Hn. subst n. rewrite firstn_app, Nat.sub_diag, firstn_all. cbn [firstn]. now rewrite app_nil_r.
+Qed.
+
+(* what ties the slice level state to the list level state, and keeps the batches handed out apart from the queue *)
+Definition h_inv (a : agent) (ha : hagent) (old : list slice) : Prop :=
+  view (ha_heap ha) (ha_queue ha) = queue a /\
+  sl_len (ha_queue ha) = length (queue a) /\
+  (sl_arr (ha_queue ha) < length (ha_heap ha))%nat /\
+  Forall (fun t => (sl_arr t < length (ha_heap ha))%nat /\ sl_arr t <> sl_arr (ha_queue ha)) old.
+
+Lemma h_receive_inv : forall slack a ha old reqs,
+  h_inv a ha old ->
+  h_inv (receive a reqs) (h_receive slack ha reqs) old /\
+  map (view (ha_heap (h_receive slack ha reqs))) old = map (view (ha_heap ha)) old.
+Proof.
+  intros slack a [h q] old reqs (Hv & Hl & Hq & Hold). cbn [ha_heap ha_queue] in *.
+  unfold h_receive, go_append. cbn [ha_heap ha_queue].
+  destruct (Nat.leb (sl_len q + length reqs) (sl_cap q)) eqn:Efit; cbn [ha_heap ha_queue].
+  - (* in place *)
+    split.
+    + unfold h_inv. cbn [ha_heap ha_queue sl_arr sl_len receive queue].
+      split; [|split; [|split]].
+      * unfold view. cbn [sl_arr sl_len]. rewrite set_arr_same by exact Hq.
+        rewrite app_assoc. unfold view in Hv. rewrite Hv.
+        apply firstn_app_exact. rewrite app_length. lia.
+      * rewrite app_length. lia.
+      * now rewrite set_arr_length.
+      * rewrite set_arr_length. exact Hold.
+    + apply map_ext_in. intros t Ht. rewrite Forall_forall in Hold. destruct (Hold t Ht) as [_ Hne].
+      unfold view. rewrite set_arr_other by congruence. reflexivity.
+  - (* a new array *)
+    split.
+    + unfold h_inv. cbn [ha_heap ha_queue sl_arr sl_len receive queue].
+      split; [|split; [|split]].
+      * unfold view at 1. cbn [sl_arr sl_len]. rewrite arr_of_app_new. rewrite Hv.
+        rewrite <- (app_nil_r (queue a ++ reqs)) at 1. apply firstn_app_exact. rewrite app_length. lia.
+      * rewrite app_length. lia.
+      * rewrite app_length. cbn [length]. lia.
+      * rewrite Forall_forall in *. intros t Ht. destruct (Hold t Ht) as [Hlt _].
+        rewrite app_length. cbn [length]. split; lia.
+    + apply map_ext_in. intros t Ht. rewrite Forall_forall in Hold. destruct (Hold t Ht) as [Hlt _].
+      unfold view. now rewrite arr_of_app_old.
+Qed.
+
+Lemma h_take_inv : forall a ha old,
+  h_inv a ha old ->
+  let '(b, a1) := take a in
+  let '(t, ha1) := h_take ha in
+  h_inv a1 ha1 (t :: old) /\ view (ha_heap ha1) t = b /\
+  map (view (ha_heap ha1)) old = map (view (ha_heap ha)) old.
+Proof.
+  intros a [h q] old (Hv & Hl & Hq & Hold). cbn [ha_heap ha_queue] in *.
+  unfold take, h_take, go_make0. cbn [ha_heap ha_queue].
+  split; [|split].
+  - unfold h_inv. cbn [ha_heap ha_queue sl_arr sl_len queue length].
+    split; [|split; [|split]].
+    + reflexivity.
+    + reflexivity.
+    + rewrite app_length. cbn [length]. lia.
+    + constructor.
+      * rewrite app_length. cbn [length]. split; lia.
+      * rewrite Forall_forall in *. intros t Ht. destruct (Hold t Ht) as [Hlt _].
+        rewrite app_length. cbn [length]. split; lia.
+  - unfold view. rewrite arr_of_app_old by exact Hq. exact Hv.
+  - apply map_ext_in. intros t Ht. rewrite Forall_forall in Hold. destruct (Hold t Ht) as [Hlt _].
+    unfold view. now rewrite arr_of_app_old.
+Qed.
+
+Lemma h_run_refines_gen : forall slack evs a ha old a' bs ha' sls,
+  h_inv a ha old ->
+  run_evs a evs = (a', bs) ->
+  h_run h_take slack ha evs = (ha', sls) ->
+  view (ha_heap ha') (ha_queue ha') = queue a' /\
+  map (view (ha_heap ha')) sls = bs /\
+  map (view (ha_heap ha')) old = map (view (ha_heap ha)) old.
+Proof.
+  intros slack. induction evs as [|e evs IH]; intros a ha old a' bs ha' sls Hinv Hr Hh.
+  - cbn [run_evs h_run] in *. inversion Hr; subst. inversion Hh; subst.
+    destruct Hinv as (Hv & _). split; [exact Hv|split; reflexivity].
+  - destruct e as [reqs|].
+    + cbn [run_evs h_run] in *.
+      destruct (h_receive_inv slack a ha old reqs Hinv) as [Hinv1 Hold1].
+      destruct (IH _ _ _ _ _ _ _ Hinv1 Hr Hh) as (Hq & Hb & Ho).
+      split; [exact Hq|split; [exact Hb|]]. now rewrite Ho.
+    + cbn [run_evs h_run] in *.
+      pose proof (h_take_inv a ha old Hinv) as Ht.
+      destruct (take a) as [b a1]. destruct (h_take ha) as [t ha1].
+      destruct Ht as (Hinv1 & Hvt & Hold1).
+      destruct (run_evs a1 evs) as [a2 bs2] eqn:Er. injection Hr as Ha' Hbs. subst a' bs.
+      destruct (h_run h_take slack ha1 evs) as [ha2 sls2] eqn:Eh. injection Hh as Hha' Hsls. subst ha' sls.
+      destruct (IH _ _ _ _ _ _ _ Hinv1 Er Eh) as (Hq & Hb & Ho).
+      cbn [map] in Ho. inversion Ho as [[Ho1 Ho2]].
+      split; [exact Hq|split].
+      * cbn [map]. now rewrite Ho1, Hvt, Hb.
+      * now rewrite Ho2.
+Qed.
+
+Lemma h_init_inv : h_inv (mkAgent []) h_init [].
+Proof. unfold h_inv, h_init. cbn. repeat split; try lia. constructor. Qed.
+
+(* the queue of Go slices (append in place when the capacity allows, take = hand out the slice and make a new empty one)
+   implements the list level queue: after ANY history of deliveries and executions, every batch handed out earlier - read
+   through the FINAL heap - is still the batch of the list model: no later delivery wrote into it *)
+Lemma h_run_refines : forall slack evs a' bs ha' sls,
+  run_evs (mkAgent []) evs = (a', bs) ->
+  h_run h_take slack h_init evs = (ha', sls) ->
+  map (view (ha_heap ha')) sls = bs /\ view (ha_heap ha') (ha_queue ha') = queue a'.
+Proof.
+  intros slack evs a' bs ha' sls Hr Hh.
+  destruct (h_run_refines_gen slack evs _ _ [] _ _ _ _ h_init_inv Hr Hh) as (Hq & Hb & _).
+  split; assumption.
+Qed.
